@@ -1165,6 +1165,342 @@ theorem requireValid_filter (o : POpts) (ho : o.requireValid = false) (n : Nat) 
 
 end Geo
 
+namespace Geo
+
+/-! ### AllowRects -/
+
+/-- the canonical text of every finite number of the document is `f` of its value (true of
+    every parsed text except for the two zeros: `-0` has value 0 and canonical text "-0") -/
+inductive CanonBy (f : Rat → String) : JVal → Prop
+  | null : CanonBy f .null
+  | tru : CanonBy f .tru
+  | fls : CanonBy f .fls
+  | str (raw dec : String) : CanonBy f (.str raw dec)
+  | num (fin : Bool) (val : Rat) (canon canonK raw : String) (h : fin = true → canon = f val) :
+      CanonBy f (.num fin val canon canonK raw)
+  | arr (items : List JVal) (h : ∀ x ∈ items, CanonBy f x) : CanonBy f (.arr items)
+  | obj (ms : List (String × String × JVal)) (h : ∀ m ∈ ms, CanonBy f m.2.2) : CanonBy f (.obj ms)
+
+theorem CanonBy.elems {f : Rat → String} {v : JVal} (h : CanonBy f v) : ∀ x ∈ v.elems, CanonBy f x := by
+  cases h with
+  | arr items h => exact h
+  | obj ms h =>
+    intro x hx
+    simp only [JVal.elems, List.mem_map] at hx
+    obtain ⟨m, hm, rfl⟩ := hx
+    exact h m hm
+  | null => intro x hx; simp only [JVal.elems, List.mem_singleton] at hx; subst hx; exact .null
+  | tru => intro x hx; simp only [JVal.elems, List.mem_singleton] at hx; subst hx; exact .tru
+  | fls => intro x hx; simp only [JVal.elems, List.mem_singleton] at hx; subst hx; exact .fls
+  | str r d => intro x hx; simp only [JVal.elems, List.mem_singleton] at hx; subst hx; exact .str r d
+  | num a b c d e h => intro x hx; simp only [JVal.elems, List.mem_singleton] at hx; subst hx; exact .num a b c d e h
+
+/-- a position whose texts are `f` of its ordinates (when finite) -/
+def PosCanon (f : Rat → String) (p : Pos) : Prop := p.fin = true → p.xs = f p.p.x ∧ p.ys = f p.p.y
+
+theorem ordOfNum_canon {f : Rat → String} {a : JVal} (h : CanonBy f a) :
+    (ordOfNum a).fin = true → (ordOfNum a).canon = f (ordOfNum a).val := by
+  cases h with
+  | num fin val canon canonK raw h =>
+    intro hf
+    simp only [ordOfNum] at hf ⊢
+    rw [if_pos hf]
+    exact h hf
+  | _ => intro hf; simp [ordOfNum] at hf
+
+theorem posOfJ_canon {f : Rat → String} {p : JVal} (h : CanonBy f p) : PosCanon f (posOfJ p) := by
+  have he := h.elems
+  unfold posOfJ PosCanon
+  match hl : p.elems with
+  | [] => exact fun hf => absurd hf (by decide)
+  | [_] =>
+    simp only [List.take_succ_cons, List.take_nil, List.map_cons, List.map_nil]
+    exact fun hf => absurd hf (by decide)
+  | a :: b :: tl =>
+    have ha := ordOfNum_canon (he a (by rw [hl]; simp))
+    have hb := ordOfNum_canon (he b (by rw [hl]; simp))
+    simp only [List.take_succ_cons, List.map_cons, mkPos, Bool.and_eq_true]
+    intro hf
+    exact ⟨ha hf.1, hb hf.2⟩
+
+/-- text of one position without extra ordinates -/
+def posText (p : Pos) : String := "[" ++ p.xs ++ "," ++ p.ys ++ "]"
+def ringText (r : List Pos) : String := "[" ++ ",".intercalate (r.map posText) ++ "]"
+
+theorem writeSeries_go_none : ∀ (ps : List Pos) (i : Nat), writeSeries.go none ps i = some (ps.map posText)
+  | [], i => by rw [writeSeries.go]; rfl
+  | p :: ps, i => by
+    rw [writeSeries.go, writeSeries_go_none ps (i+1)]
+    rfl
+
+theorem writeSeries_none (ps : List Pos) (i : Nat) :
+    writeSeries ps none i = some (ringText ps, i + ps.length) := by
+  unfold writeSeries
+  rw [writeSeries_go_none]
+  rfl
+
+theorem writeRings_go_none : ∀ (rings : List (List Pos)) (i : Nat),
+    writeRings.go none rings i = some (rings.map ringText)
+  | [], i => by rw [writeRings.go]; rfl
+  | r :: rs, i => by
+    rw [writeRings.go, writeSeries_none]
+    simp only [Option.bind_eq_bind, Option.bind_some, writeRings_go_none rs]
+    rfl
+
+theorem writeRings_none (rings : List (List Pos)) :
+    writeRings rings none = some ("[" ++ ",".intercalate (rings.map ringText) ++ "]") := by
+  unfold writeRings
+  rw [writeRings_go_none]
+  rfl
+
+/-- the rectangle written from its corners is the ring as it was read -/
+theorem rect_write_eq {f : Rat → String} (o : POpts) {p0 p1 p2 p3 p4 : Pos}
+    (h0 : PosCanon f p0) (h1 : PosCanon f p1) (h2 : PosCanon f p2) (h3 : PosCanon f p3)
+    (h4 : PosCanon f p4) (hr : isRectRing [p0, p1, p2, p3, p4] = true)
+    (hok : ringOK [p0, p1, p2, p3, p4] = true) :
+    write (.rectO ⟨p0.p, p2.p⟩ p0 p2) =
+      write (.polygon (mkPoly o [[p0, p1, p2, p3, p4]]) [[p0, p1, p2, p3, p4]] none) := by
+  simp only [isRectRing, Bool.and_eq_true, decide_eq_true_eq] at hr
+  obtain ⟨⟨⟨⟨⟨⟨⟨⟨⟨⟨⟨⟨f0, f1⟩, f2⟩, f3⟩, f4⟩, _⟩, e1⟩, e2⟩, _⟩, _⟩, e3⟩, e4⟩, _⟩ := hr
+  simp only [ringOK, List.head?_cons, List.getLast?_cons_cons, List.getLast?_singleton,
+    Bool.and_eq_true, beq_iff_eq] at hok
+  have e5 : p0.p = p4.p := hok.2.2
+  obtain ⟨a0, b0⟩ := h0 f0
+  obtain ⟨a1, b1⟩ := h1 f1
+  obtain ⟨a2, b2⟩ := h2 f2
+  obtain ⟨a3, b3⟩ := h3 f3
+  obtain ⟨a4, b4⟩ := h4 f4
+  have hempty : (mkPoly o [[p0, p1, p2, p3, p4]]).empty = false := by
+    simp [mkPoly, Poly.empty, Ring.empty, Series.empty, mkSeries, ptsOf]
+  simp only [write, hempty, Bool.false_eq_true, if_false, writeRings_none, writeExtra,
+    String.append_empty, Option.bind_eq_bind, Option.bind_some, pure]
+  have : List.map ringText [rectRing p0 p2] = List.map ringText [[p0, p1, p2, p3, p4]] := by
+    simp only [List.map_cons, List.map_nil, ringText, rectRing, posText]
+    have x3 : p3.p.x = p0.p.x := by rw [e4, ← e5]
+    rw [a1, b1, a3, b3, a4, b4, a0, b0, a2, b2, ← e5, e2, ← e1, ← e3, x3]
+  rw [this]
+
+theorem polyCase_shape {o : POpts} {k : Keys} {x : Obj} (h : polyCase o k = .ok x) :
+    ∃ c rings ex, k.coordinates = some c ∧ parsePolyCoords c = .ok (rings, ex) ∧
+      rings.all ringOK = true ∧ x = polyObj o rings (withMembers ex k) := by
+  unfold polyCase at h
+  split at h
+  · cases h
+  · rename_i c hc
+    split at h
+    · cases h
+    · rename_i rings ex hp
+      split at h
+      · cases h
+      · rename_i hok
+        simp only at h
+        split at h
+        · cases h
+        · cases h
+          refine ⟨c, rings, ex, (reqArray_ok hc).1, hp, ?_, rfl⟩
+          simp only [Bool.or_eq_true, Bool.not_eq_true', not_or, Bool.not_eq_true, Bool.not_eq_false] at hok
+          exact hok.2
+
+theorem polyCase_rects_WEq {f : Rat → String} (o : POpts) (k : Keys) (hk : k.AllIn (CanonBy f)) {x x' : Obj}
+    (hx : polyCase { o with allowRects := true } k = .ok x)
+    (hx' : polyCase { o with allowRects := false } k = .ok x') : WEq x x' := by
+  obtain ⟨c, rings, ex, hc, hp, hok, rfl⟩ := polyCase_shape hx
+  obtain ⟨c', rings', ex', hc', hp', _, rfl⟩ := polyCase_shape hx'
+  rw [hc] at hc'; cases hc'
+  rw [hp] at hp'; cases hp'
+  have hx2 : polyObj { o with allowRects := false } rings (withMembers ex k) =
+      .polygon (mkPoly o rings) rings (withMembers ex k) := by
+    rcases polyObj_cases { o with allowRects := false } rings (withMembers ex k) with h | ⟨_, _, _, _, _, _, _, h, _⟩
+    · exact h
+    · cases h
+  rw [hx2]
+  rcases polyObj_cases { o with allowRects := true } rings (withMembers ex k) with h | ⟨p0, p1, p2, p3, p4, hr, hex, _, hrect, h⟩
+  · rw [h]; exact ⟨rfl, rfl⟩
+  · rw [h, hr, hex]
+    refine ⟨?_, rfl⟩
+    have hrings := parsePolyCoords_pos hp
+    have hcan : ∀ r ∈ rings, ∀ p ∈ r, PosCanon f p := by
+      intro r hr' p hp'
+      rw [hrings, List.mem_map] at hr'
+      obtain ⟨jr, hjr, rfl⟩ := hr'
+      simp only [ringOfJ, List.mem_map] at hp'
+      obtain ⟨jp, hjp, rfl⟩ := hp'
+      exact posOfJ_canon (((hk.coordinates c hc).elems jr hjr).elems jp hjp)
+    rw [hr] at hcan hok
+    have hc' := hcan _ List.mem_cons_self
+    simp only [List.all_cons, List.all_nil, Bool.and_true] at hok
+    exact rect_write_eq o (hc' p0 (by simp)) (hc' p1 (by simp)) (hc' p2 (by simp)) (hc' p3 (by simp))
+      (hc' p4 (by simp)) hrect hok
+
+theorem CanonBy.keys {f : Rat → String} {ms : List (String × String × JVal)} (h : CanonBy f (.obj ms)) :
+    (scanKeys ms).AllIn (CanonBy f) := by
+  cases h with
+  | obj _ h => exact scanKeys_allIn _ ms h
+
+theorem CanonBy.items {f : Rat → String} {items : List JVal} (h : CanonBy f (.arr items)) :
+    ∀ x ∈ items, CanonBy f x := by
+  cases h with
+  | arr _ h => exact h
+
+/-- the statement carried through the recursion -/
+theorem allowRects_WEq (o : POpts) (f : Rat → String) : ∀ (n : Nat) (v : JVal) (x x' : Obj),
+    CanonBy f v →
+    parse { o with allowRects := true } n v = .ok x →
+    parse { o with allowRects := false } n v = .ok x' → WEq x x'
+  | n, v, x, x', hf, hx, hx' => by
+    obtain ⟨m, ms, rfl, rfl⟩ := parse_ok_isObj hx
+    obtain ⟨r, ty, hty, h1⟩ := parse_obj_ok hx
+    obtain ⟨r', ty', hty', h2⟩ := parse_obj_ok hx'
+    rw [hty] at hty'
+    cases hty'
+    have hk := hf.keys
+    have hL : ∀ items cs cs', CanonBy f (.arr items) →
+        parseList { o with allowRects := true } m items = .ok cs →
+        parseList { o with allowRects := false } m items = .ok cs' →
+        Forall2 (fun y y' => write y = write y') cs cs' := by
+      intro items cs cs' hi h1 h2
+      exact (parseList_ok _ m items cs h1).zip (parseList_ok _ m items cs' h2)
+        (fun a y z ha hy hz => (allowRects_WEq o f m a y z (hi.items a ha) hy hz).1)
+    revert h1 h2
+    refine parseTyped_elim₂ (motive := fun _ a b => a = .ok x → b = .ok x' → WEq x x') _ _ _ _ _ _ _ ty
+      ?_ ?_ ?_ ?_ ?_ ?_ ?_ ?_ ?_ ?_
+    · intro h1 h2
+      have : pointCase { o with allowRects := true } (scanKeys ms) =
+          pointCase { o with allowRects := false } (scanKeys ms) := rfl
+      rw [this, h2] at h1; cases h1; exact ⟨rfl, rfl⟩
+    · intro h1 h2
+      have : lineCase { o with allowRects := true } (scanKeys ms) =
+          lineCase { o with allowRects := false } (scanKeys ms) := rfl
+      rw [this, h2] at h1; cases h1; exact ⟨rfl, rfl⟩
+    · exact polyCase_rects_WEq o _ hk
+    · intro h1 h2
+      have : multiPointCase { o with allowRects := true } (scanKeys ms) =
+          multiPointCase { o with allowRects := false } (scanKeys ms) := rfl
+      rw [this, h2] at h1; cases h1; exact ⟨rfl, rfl⟩
+    · intro h1 h2
+      have : multiLineCase { o with allowRects := true } (scanKeys ms) =
+          multiLineCase { o with allowRects := false } (scanKeys ms) := rfl
+      rw [this, h2] at h1; cases h1; exact ⟨rfl, rfl⟩
+    · intro h1 h2
+      have : multiPolyCase { o with allowRects := true } (scanKeys ms) =
+          multiPolyCase { o with allowRects := false } (scanKeys ms) := rfl
+      rw [this, h2] at h1; cases h1; exact ⟨rfl, rfl⟩
+    · intro h1 h2
+      obtain ⟨items, cs, hg, hcs, rfl⟩ := geomCollCase_ok h1
+      obtain ⟨items', cs', hg', hcs', rfl⟩ := geomCollCase_ok h2
+      rw [hg] at hg'; cases hg'
+      exact mkColl_WEq (.inl rfl) _ (hL items cs cs' (hk.geometries _ hg) hcs hcs')
+    · intro h1 h2
+      obtain ⟨items, cs, hg, hcs, rfl⟩ := featCollCase_ok h1
+      obtain ⟨items', cs', hg', hcs', rfl⟩ := featCollCase_ok h2
+      rw [hg] at hg'; cases hg'
+      exact mkColl_WEq (.inr rfl) _ (hL items cs cs' (hk.features _ hg) hcs hcs')
+    · intro h1 h2
+      obtain ⟨g, b, hg, hb, hf1⟩ := featureCase_ok h1
+      obtain ⟨g', b', hg', hb', hf2⟩ := featureCase_ok h2
+      rw [hg] at hg'; cases hg'
+      exact featureObj_WEq rfl _ (allowRects_WEq o f m g b b' (hk.geometry _ hg) hb hb') hf1 hf2
+    · intro _ h; cases h
+termination_by n => n
+
+/-- AllowRects changes only the constructor: the written text is the same — provided the
+    canonical text of the document's numbers is a function of their value (it is, except for
+    `-0` versus `0`: `allowRects_write_counterexample`). -/
+theorem allowRects_write_partial (o : POpts) (f : Rat → String) (n : Nat) (v : JVal) (x x' : Obj)
+    (hf : CanonBy f v)
+    (hx : parse { o with allowRects := true } n v = .ok x)
+    (hx' : parse { o with allowRects := false } n v = .ok x') : write x = write x' :=
+  (allowRects_WEq o f n v x x' hf hx hx').1
+
+end Geo
+
+namespace Geo
+
+/-- `{"type":"Polygon","coordinates":[[[0,0],[10,0],[10,10],[-0,10],[0,0]]]}`: the number `-0`
+    has value 0 and canonical text "-0" -/
+def docNegZero : JVal :=
+  .obj [jmem "type" (jstr "Polygon"),
+        jmem "coordinates" (.arr [.arr [.arr [jnum 0 "0", jnum 0 "0"], .arr [jnum 10 "10", jnum 0 "0"],
+          .arr [jnum 10 "10", jnum 10 "10"], .arr [jnum 0 "-0", jnum 10 "10"], .arr [jnum 0 "0", jnum 0 "0"]]])]
+
+def pz (x y : Rat) (xs ys : String) : Pos := ⟨⟨x, y⟩, true, xs, ys⟩
+def ringNZ : List Pos := [pz 0 0 "0" "0", pz 10 0 "10" "0", pz 10 10 "10" "10", pz 0 10 "-0" "10", pz 0 0 "0" "0"]
+
+theorem nz_rect : parse { allowRects := true } 5 docNegZero = .ok (.rectO ⟨⟨0,0⟩,⟨10,10⟩⟩ (pz 0 0 "0" "0") (pz 10 10 "10" "10")) := by
+  show parse _ (4+1) (.obj _) = _
+  rw [parse_succ_obj]
+  rfl
+
+theorem nz_poly : parse { allowRects := false } 5 docNegZero = .ok (.polygon (mkPoly {} [ringNZ]) [ringNZ] none) := by
+  show parse _ (4+1) (.obj _) = _
+  rw [parse_succ_obj]
+  rfl
+
+theorem nz_w1 : write (.rectO ⟨⟨0,0⟩,⟨10,10⟩⟩ (pz 0 0 "0" "0") (pz 10 10 "10" "10")) = some "{\"type\":\"Polygon\",\"coordinates\":[[[0,0],[10,0],[10,10],[0,10],[0,0]]]}" := by
+  decide
+
+theorem nz_w2 : write (.polygon (mkPoly {} [ringNZ]) [ringNZ] none) = some "{\"type\":\"Polygon\",\"coordinates\":[[[0,0],[10,0],[10,10],[-0,10],[0,0]]]}" := by
+  decide
+
+/-- FINDING (model level; the AST is what the harness produces for the number `-0`: value 0,
+    canonical text "-0"): with AllowRects the rectangle is written from its two corners, so the
+    `-0` of the fourth vertex comes out as `0`. The unrestricted `allowRects_write` is false. -/
+theorem allowRects_write_counterexample :
+    ∃ (o : POpts) (n : Nat) (v : JVal) (x x' : Obj),
+      parse { o with allowRects := true } n v = .ok x ∧
+      parse { o with allowRects := false } n v = .ok x' ∧ write x ≠ write x' := by
+  refine ⟨{}, 5, docNegZero, _, _, nz_rect, nz_poly, ?_⟩
+  rw [nz_w1, nz_w2]
+  decide
+
+end Geo
+
+namespace Geo
+
+/-- non-vacuity of `allowRects_write_partial`: the same rectangle with `0` instead of `-0` -/
+def docRect : JVal :=
+  .obj [jmem "type" (jstr "Polygon"),
+        jmem "coordinates" (.arr [.arr [.arr [jnum 0 "0", jnum 0 "0"], .arr [jnum 10 "10", jnum 0 "0"],
+          .arr [jnum 10 "10", jnum 10 "10"], .arr [jnum 0 "0", jnum 10 "10"], .arr [jnum 0 "0", jnum 0 "0"]]])]
+
+def canonEx (q : Rat) : String := if q = 0 then "0" else "10"
+
+theorem docRect_canon : CanonBy canonEx docRect := by
+  have n0 : CanonBy canonEx (jnum 0 "0") := .num _ _ _ _ _ (fun _ => by decide)
+  have n10 : CanonBy canonEx (jnum 10 "10") := .num _ _ _ _ _ (fun _ => by decide)
+  have pos : ∀ a b, CanonBy canonEx a → CanonBy canonEx b → CanonBy canonEx (.arr [a, b]) := by
+    intro a b ha hb
+    refine .arr _ ?_
+    intro x hx
+    simp only [List.mem_cons, List.not_mem_nil, or_false] at hx
+    rcases hx with rfl | rfl <;> assumption
+  refine .obj _ ?_
+  intro m hm
+  simp only [List.mem_cons, List.not_mem_nil, or_false] at hm
+  rcases hm with rfl | rfl
+  · exact .str _ _
+  · refine .arr _ ?_
+    intro r hr
+    simp only [List.mem_cons, List.not_mem_nil, or_false] at hr
+    subst hr
+    refine .arr _ ?_
+    intro q hq
+    simp only [List.mem_cons, List.not_mem_nil, or_false] at hq
+    rcases hq with rfl | rfl | rfl | rfl | rfl
+    · exact pos _ _ n0 n0
+    · exact pos _ _ n10 n0
+    · exact pos _ _ n10 n10
+    · exact pos _ _ n0 n10
+    · exact pos _ _ n0 n0
+
+example : parse { allowRects := true } 5 docRect =
+    .ok (.rectO ⟨⟨0,0⟩,⟨10,10⟩⟩ (pz 0 0 "0" "0") (pz 10 10 "10" "10")) := by
+  show parse _ (4+1) (.obj _) = _
+  rw [parse_succ_obj]
+  rfl
+
+end Geo
+
 #print axioms Geo.index_opts_accept_same
 #print axioms Geo.index_opts_error_same
 #print axioms Geo.index_opts_obsEq
@@ -1172,3 +1508,5 @@ end Geo
 #print axioms Geo.obsEq_attrs
 #print axioms Geo.allowSimplePoints_write
 #print axioms Geo.requireValid_filter
+#print axioms Geo.allowRects_write_partial
+#print axioms Geo.allowRects_write_counterexample
